@@ -312,3 +312,29 @@ def replay(ob):
     except Exception as e:
         return {'reproduced': False, 'detail': 'native evaluation raised %s: %s (not counted as a reproduction)' % (type(e).__name__, e)}
     return {'reproduced': bool(bad), 'detail': bad or 'relations hold natively on random parameters'}
+
+
+def check_factory_mirror(factory):
+    """a volume and its mirror image in z (and in x, y) are related by a rigid reflection, so the factory must give detectors that are mirror images of each other:
+    the detectors are symmetric intervals, hence equal extents and shapes"""
+    odl, np = _odl()
+    make = getattr(odl.tomo, factory)
+    kw = dict(src_radius=6.0, det_radius=9.0) if factory != 'parallel_beam_geometry' else {}
+    for lo, hi in (([-1, -1, -3], [1, 1, 1]), ([-2, -1, 0.5], [1, 2, 2.5]), ([-1, -1, -2], [1, 1, 2])):
+        shape = (8, 8, 8)
+        a = odl.uniform_discr(lo, hi, shape)
+        b = odl.uniform_discr([lo[0], lo[1], -hi[2]], [hi[0], hi[1], -lo[2]], shape)
+        ga, gb = make(a, **kw), make(b, **kw)
+        da, db = ga.det_partition, gb.det_partition
+        # axis 0 (in-plane) equal; axis 1 (axial) mirrored: [a, b] <-> [-b, -a]
+        if da.shape != db.shape or not np.isclose(da.min_pt[0], db.min_pt[0]) or not np.isclose(da.max_pt[0], db.max_pt[0]) or \
+                not np.isclose(db.min_pt[1], -da.max_pt[1]) or not np.isclose(db.max_pt[1], -da.min_pt[1]):
+            return '%s: volume z in [%g, %g] gets detector %r x %r, its mirror image z in [%g, %g] gets %r x %r' % (factory, lo[2], hi[2], da.min_pt, da.max_pt, -hi[2], -lo[2], db.min_pt, db.max_pt)
+        # the detector height must not be smaller than the height for the sub-volume that is symmetric in z (it contains it)
+        zs = min(abs(lo[2]), abs(hi[2]))
+        if lo[2] < 0 < hi[2]:
+            c = odl.uniform_discr([lo[0], lo[1], -zs], [hi[0], hi[1], zs], shape)
+            dc = make(c, **kw).det_partition
+            if da.max_pt[1] < dc.max_pt[1] - 1e-9:
+                return '%s: the volume z in [%g, %g] gets a SHORTER detector (%g) than its sub-volume z in [%g, %g] (%g)' % (factory, lo[2], hi[2], da.max_pt[1], -zs, zs, dc.max_pt[1])
+    return None
